@@ -113,13 +113,15 @@ def check_c06(run):
             for k, cr in enumerate(c["creds"]):
                 for deny in ([False, True] if k % 3 == 0 else [False]):
                     h, q = cred_wire(cr, deny)
-                    reqs.append(dict(id=len(reqs), method="GET", path="/op%d" % i, rawQuery=q, headers=h))
-                    meta.append((c, cr, deny))
+                    # the otherwise valid request, and (every second) the same credentials on an invalid request
+                    for valid, lim in ((True, "limit=2"), (False, "limit=0"), (False, ""))[: 3 if (k + i) % 2 == 0 else 1]:
+                        reqs.append(dict(id=len(reqs), method="GET", path="/op%d" % i, rawQuery="&".join(x for x in (q, lim) if x), headers=h))
+                        meta.append((c, cr, deny, valid))
         start, resp = run_driver(run, drv, reqs, g)
         evs = [dict(ev="Server", g=g, ok=True, err="")]
-        for r, (c, cr, deny) in zip(resp, meta):
+        for r, (c, cr, deny, valid) in zip(resp, meta):
             evs.append(dict(ev="Request", g=g, ghas=c["ghas"], galts=c["galts"], inherit=c["inherit"], own=c["own"],
-                            creds=cr, deny=deny, status=r["status"], reached=r["reached"], principal=r["principal"],
+                            creds=cr, deny=deny, valid=valid, status=r["status"], reached=r["reached"], principal=r["principal"],
                             panicked=r["panicked"], op=r["handler"]))
         return g, evs, len(reqs)
 
@@ -131,13 +133,13 @@ def check_c06(run):
         ev = events[e["line"] - 1]
         if ev["ev"] == "Server":
             run.violations.append(dict(signature="server for global requirement %s: %s" % (ev["g"], e["why"]), detail=ev)); continue
-        sig = "%s | global=%s own=%s creds=%s deny=%s" % (e["why"], ev["g"], "inherit" if ev["inherit"] else json.dumps(ev["own"]),
-                                                          json.dumps(ev["creds"], sort_keys=True), ev["deny"])
+        sig = "%s | global=%s own=%s creds=%s deny=%s%s" % (e["why"], ev["g"], "inherit" if ev["inherit"] else json.dumps(ev["own"]),
+                                                            json.dumps(ev["creds"], sort_keys=True), ev["deny"], "" if ev["valid"] else " invalid-request")
         run.violations.append(dict(signature=sig, detail=ev))
     nreq = sum(n for _, _, n in results)
     cov = dict(states=mc["states"] + gen["states"], transitions=mc["transitions"] + gen["transitions"],
                traces_validated_against_impl=nreq, evaluations=nreq,
-               distinct_nontrivial=len({json.dumps([e["g"], e["inherit"], e["own"], e["creds"], e["deny"]], sort_keys=True) for e in events if e["ev"] == "Request"}),
+               distinct_nontrivial=len({json.dumps([e["g"], e["inherit"], e["own"], e["creds"], e["deny"], e["valid"]], sort_keys=True) for e in events if e["ev"] == "Request"}),
                rule="every operation requirement shape (<= 2 alternatives of <= 2 of 3 schemes, anonymous, inherit, explicit []) under 3 global requirements x every credential-class assignment to the mentioned schemes (+ an unrequested credential), authorizer deny on every third",
                samples=[e for e in events if e["ev"] == "Request"][:2], servers=len(globs), operations=len(cases),
                negative_control="MCSecurityMissing violates OnlyIfSatisfied as required", rejected_events=len(rejects), exhaustive=True)
